@@ -336,6 +336,55 @@ def fam_gd_silver(p):
                 yield (m.value(x) - fstar(m)) / dist2(x0, xs), "%s from %s, %d steps" % (m.name, x0.tolist(), n_eff)
 
 
+def fam_relatively_inexact_ppa(p):
+    """x_{t+1} = x_t - gamma s_{t+1} + e_{t+1}, s_{t+1} in df(x_{t+1}), |e_{t+1}| <= sigma |x_{t+1} - x_t|, on f = c |x| from x0 = 1
+    for a ladder of slopes c; at every step the error takes its two extreme admissible values or 0 (complete tree); every
+    step is re-checked against the documented requirement before the run is reported"""
+    n, gamma, sigma = p["n"], p["gamma"], p["sigma"]
+    for c in [0.02 * 1.12 ** k for k in range(70)]:
+        def rec(x, k):
+            if k == n:
+                yield x
+                return
+            for kap in ((-1.0, 0.0, 1.0) if sigma > 0 else (0.0,)):
+                xn = x - gamma * c / (1 + kap * sigma)
+                if xn > 1e-12:
+                    s_, e_ = c, xn - x + gamma * c
+                elif x * (1 - sigma) / gamma <= c and kap == 0.0:
+                    xn = 0.0
+                    s_ = min(c, x / gamma)
+                    e_ = xn - x + gamma * s_
+                else:
+                    continue
+                assert abs(e_) <= sigma * abs(xn - x) + 1e-12 and -c - 1e-12 <= s_ <= c + 1e-12 and (xn > 0 and abs(s_ - c) < 1e-12 or xn == 0.0)
+                yield from rec(xn, k + 1)
+        for xn in rec(1.0, 0):
+            yield c * abs(xn), "f = %.4g |x| from 1" % c
+
+
+def _two_lines(p, averaged):
+    """Q1, Q2 = two lines through the origin of the plane at angle theta (closed convex sets with x* = 0 in both): projections
+    are the linear maps u u^T; every angle of a grid and every unit start of a grid"""
+    n = p["n"]
+    for theta in np.linspace(0.02, math.pi / 2, 80):
+        u1, u2 = v(1.0, 0.0), v(math.cos(theta), math.sin(theta))
+        P1, P2 = np.outer(u1, u1), np.outer(u2, u2)
+        for phi in np.linspace(0, math.pi, 25):
+            x = v(math.cos(phi), math.sin(phi))
+            for _ in range(n):
+                x = 0.5 * (P1 @ x + P2 @ x) if averaged else P2 @ (P1 @ x)
+            r = P1 @ x - P2 @ x
+            yield float(r @ r), "lines at angle %.4f, start at angle %.4f" % (theta, phi)
+
+
+def fam_averaged_projections(p):
+    yield from _two_lines(p, True)
+
+
+def fam_alternate_projections(p):
+    yield from _two_lines(p, False)
+
+
 def fam_exact_line_search(p):
     L, mu, n = p["L"], p["mu"], p["n"]
     Q0 = np.diag([mu, L])
@@ -835,6 +884,9 @@ FAMILIES = {
     "gradient_descent": fam_gradient_descent,
     "gradient_descent_contraction": fam_gd_contraction,
     "gradient_descent_silver_stepsize_convex": fam_gd_silver,
+    "averaged_projections": fam_averaged_projections,
+    "relatively_inexact_proximal_point_algorithm": fam_relatively_inexact_ppa,
+    "alternate_projections": fam_alternate_projections,
     "gradient_descent_quadratics": fam_gd_quadratics,
     "gradient_descent_qg_convex": fam_gd_qg,
     "subgradient_method_rsi_eb": fam_subgradient_rsi_eb,
